@@ -641,6 +641,7 @@ tls_read(struct tls *ctx, void *buf, size_t buflen)
 
 	if (buflen > INT_MAX) {
 		tls_set_errorx(ctx, "buflen too long");
+		rv = -1;
 		goto out;
 	}
 
@@ -675,6 +676,7 @@ tls_write(struct tls *ctx, const void *buf, size_t buflen)
 
 	if (buflen > INT_MAX) {
 		tls_set_errorx(ctx, "buflen too long");
+		rv = -1;
 		goto out;
 	}
 
